@@ -44,12 +44,48 @@ def _fixed_findings():
 
 
 FIX_C = "DC12c" in _fixed_findings()  # set-memory-space only re-uses a cast that dominates the use (fixes/FC12c-…)
+FIX_E = "DC12e" in _fixed_findings()  # ApplyLayoutCastSubviewGlobal: subview offsets at tile boundaries (fixes/FC12e-…)
+FIX_F = "DC12f" in _fixed_findings()  # … and the tile divides the global (fixes/FC12e-… = FC09a + offsets)
 FIX_D = "DC12d" in _fixed_findings()  # transform_constant refuses layouts with an offset (fixes/FC12d-…)
 
 T1 = 'memref<64xi32, "L1">'
 T3 = 'memref<64xi32, "L3">'
 T1L = 'memref<64xi32, #tsl.tsl<[4, 16] -> (16, 1)>, "L1">'
 ELTS = {"i8": 8, "i16": 16, "i32": 32, "i64": 64}
+
+
+# ------------------------------------------------------------------------------------------------
+# running the real passes: one cached context per process, pass objects applied in place (the snax-opt front end with
+# temporary files costs ~4x as much per case); the module is verified after every pass as snax-opt does, and
+# `dominance_ok` replaces the check that re-parsing the printed module used to give
+# ------------------------------------------------------------------------------------------------
+_CTX = None
+
+
+def _ctx():
+    global _CTX
+    if _CTX is None:
+        _CTX = snaxrun.fresh_ctx()
+    return _CTX
+
+
+def fparse(src):
+    from xdsl.parser import Parser
+    return Parser(_ctx(), src).parse_module()
+
+
+def fpasses(src, names):
+    """parse `src`, apply the named passes of the real code in place, verify after each; returns the module"""
+    from snaxc.transforms.realize_memref_casts import RealizeMemrefCastsPass
+    from snaxc.transforms.set_memory_space import SetMemorySpace
+    table = {"realize-memref-casts": RealizeMemrefCastsPass, "set-memory-space": SetMemorySpace}
+    m = fparse(src)
+    for n in names.split(","):
+        table[n]().apply(_ctx(), m)
+        m.verify()
+    if not dominance_ok(m):
+        raise ValueError("an operand is used outside the region that defines it")
+    return m
 
 
 # ------------------------------------------------------------------------------------------------
@@ -285,8 +321,7 @@ def impl_glob(case):
     import warnings
     with warnings.catch_warnings():
         warnings.simplefilter("ignore")
-        out = snaxrun.run_passes(glob_src(case), "realize-memref-casts")
-    m = snaxrun.parse(out)
+        m = fpasses(glob_src(case), "realize-memref-casts")
     m.verify()
     res = {"out": None}
     gmem = {}
@@ -546,12 +581,12 @@ def impl_memspace(case):
     from xdsl.dialects import func, linalg, memref
     src = memspace_src(case)
     try:
-        snaxrun.parse(src).verify()
+        fparse(src).verify()
     except Exception as e:  # the generator produced an invalid input: not the code's problem
         return {"invalid_input": type(e).__name__}
     from snaxc.transforms.set_memory_space import SetMemorySpace
-    m = snaxrun.parse(src)
-    SetMemorySpace().apply(snaxrun.fresh_ctx(), m)
+    m = fparse(src)
+    SetMemorySpace().apply(_ctx(), m)
     f = [o for o in m.walk() if isinstance(o, func.FuncOp)][0]
     operands = {}
     for op in m.walk():
@@ -864,13 +899,12 @@ def impl_realize(case):
     from snaxc.dialects.snax import LayoutCast
     src = realize_src(case)
     try:
-        before = snaxrun.parse(src)
+        before = fparse(src)
         before.verify()
     except Exception as e:
         return {"invalid_input": f"{type(e).__name__}: {str(e)[:100]}"}
     try:
-        after_txt = snaxrun.run_passes(src, "realize-memref-casts")
-        after = snaxrun.parse(after_txt)
+        after = fpasses(src, "realize-memref-casts")
         after.verify()
     except Exception as e:  # the input verified: the pass broke the IR (or crashed) on a program of the quantifier
         return {"per": [], "sem": {"trips": [], "what": f"the IR is invalid ({type(e).__name__}: {str(e)[:120]})"},
@@ -1088,8 +1122,8 @@ def pipe_cast_assignment(case, src):
     from xdsl.dialects import func, linalg, memref, scf
     from xdsl.ir import BlockArgument
     from snaxc.transforms.set_memory_space import SetMemorySpace
-    m = snaxrun.parse(src)
-    SetMemorySpace().apply(snaxrun.fresh_ctx(), m)
+    m = fparse(src)
+    SetMemorySpace().apply(_ctx(), m)
     ids = pipe_ids(case)
     f = [o for o in m.walk() if isinstance(o, func.FuncOp)][0]
     pos = {}
@@ -1131,7 +1165,7 @@ def pipe_cast_assignment(case, src):
 def impl_pipe(case):
     src = pipe_src(case)
     try:
-        before = snaxrun.parse(src)
+        before = fparse(src)
         before.verify()
     except Exception as e:
         return {"invalid_input": f"{type(e).__name__}: {str(e)[:100]}"}
@@ -1142,7 +1176,7 @@ def impl_pipe(case):
 
 def impl_pipe_sem(case, src, before):
     try:
-        after = snaxrun.parse(snaxrun.run_passes(src, "set-memory-space,realize-memref-casts"))
+        after = fpasses(src, "set-memory-space,realize-memref-casts")
         after.verify()
         if not dominance_ok(after):
             raise ValueError("an operand is used outside the region that defines it")
@@ -1296,10 +1330,10 @@ def impl_dyn(case):
     from xdsl.dialects import arith, func, linalg, memref
     src = dyn_src(case)
     try:
-        snaxrun.parse(src).verify()
+        fparse(src).verify()
     except Exception as e:
         return {"invalid_input": f"{type(e).__name__}: {str(e)[:100]}"}
-    m = snaxrun.parse(snaxrun.run_passes(src, "realize-memref-casts"))
+    m = fpasses(src, "realize-memref-casts")
     m.verify()
     f = [o for o in m.walk() if isinstance(o, func.FuncOp)][0]
     rt = list(case["rt"])
@@ -1486,12 +1520,12 @@ def impl_subg(case):
     import warnings
     src = subg_src(case)
     try:
-        snaxrun.parse(src).verify()
+        fparse(src).verify()
     except Exception as e:
         return {"invalid_input": f"{type(e).__name__}: {str(e)[:100]}"}
     with warnings.catch_warnings():
         warnings.simplefilter("ignore")
-        m = snaxrun.parse(snaxrun.run_passes(src, "realize-memref-casts"))
+        m = fpasses(src, "realize-memref-casts")
     m.verify()
     res = {"fires": False, "global_ts": None, "global_data": None, "problems": [], "consumers": {}}
     gmem, gtype = {}, {}
@@ -1605,6 +1639,272 @@ def subg_fires_pre(case):
 
 
 
+# ------------------------------------------------------------------------------------------------
+# remaining patterns / passes of the anchored files ("misc"): ApplyLayoutCastMemrefAlloc, the whole
+# RemoveTransposeConstants pattern, alloc-to-global, clear-memory-space
+# ------------------------------------------------------------------------------------------------
+
+def gen_misc(rng):
+    sub = rng.choice(["allocroot", "allocroot", "rtc", "a2g", "cms"])
+    if sub == "allocroot":
+        c = gen_const(rng)
+        while any(st is None or b is None for t in c["ts"] for st, b in t):
+            c = gen_const(rng)
+        c2 = None
+        if rng.random() < 0.5:
+            pos = [(d, k) for d in range(len(c["ts"])) for k in range(len(c["ts"][d]))]
+            rng.shuffle(pos)
+            cur, step = 1, {}
+            for (d, k) in pos:
+                step[(d, k)] = cur
+                cur *= c["ts"][d][k][1]
+            c2 = [[[step[(d, k)], c["ts"][d][k][1]] for k in range(len(c["ts"][d]))] for d in range(len(c["ts"]))]
+        return {"kind": "misc", "sub": sub, "shape": c["shape"], "ts": c["ts"], "ts2": c2, "el": c["el"],
+                "extra": rng.choice([None, None, None, "direct", "return"])}
+    if sub == "rtc":
+        rows, cols = rng.randint(1, 5), rng.randint(1, 5)
+        return {"kind": "misc", "sub": sub, "shape": [rows, cols], "data": [rng.randrange(-100, 100) for _ in range(rows * cols)],
+                "el": rng.choice(["i8", "i32"]), "transposing": rng.random() < 0.8}
+    if sub == "a2g":
+        n = rng.randint(1, 3)
+        return {"kind": "misc", "sub": sub, "allocs": [{"ret": rng.random() < 0.6, "space": rng.choice([None, None, "L1"]),
+                                                       "dealloc": rng.random() < 0.3, "shape": [rng.choice([2, 4, 8])]} for _ in range(n)],
+                "twice": rng.random() < 0.3}
+    return {"kind": "misc", "sub": "cms", "spaces": [rng.choice([None, "L1", "L3"]) for _ in range(rng.randint(1, 3))],
+            "tsl": rng.random() < 0.5, "subview": rng.random() < 0.5}
+
+
+def misc_src(case):
+    sub = case["sub"]
+    if sub == "allocroot":
+        sh = "x".join(str(x) for x in case["shape"])
+        el = case["el"]
+        t0 = f'memref<{sh}x{el}, "L1">'
+        t1 = f'memref<{sh}x{el}, #tsl.tsl<{layout_text(case["ts"], 0)}>, "L1">'
+        lines = [f'    %0 = "memref.alloc"() <{{operandSegmentSizes = array<i32: 0, 0>}}> : () -> {t0}',
+                 f'    %1 = "snax.layout_cast"(%0) : ({t0}) -> {t1}',
+                 f'    "test.op"(%1) {{consumer = 0}} : ({t1}) -> ()']
+        if case["ts2"]:
+            t2 = f'memref<{sh}x{el}, #tsl.tsl<{layout_text(case["ts2"], 0)}>, "L1">'
+            lines += [f'    %2 = "snax.layout_cast"(%0) : ({t0}) -> {t2}', f'    "test.op"(%2) {{consumer = 1}} : ({t2}) -> ()']
+        if case["extra"] == "direct":
+            lines.append(f'    "test.op"(%0) {{consumer = 2}} : ({t0}) -> ()')
+        ret = f"    func.return %0 : {t0}" if case["extra"] == "return" else "    func.return"
+        sig = f" -> {t0}" if case["extra"] == "return" else ""
+        return "builtin.module {\n  func.func @f()" + sig + " {\n" + "\n".join(lines) + "\n" + ret + "\n  }\n}\n"
+    if sub == "rtc":
+        r, c = case["shape"]
+        el = case["el"]
+        tin, tout = f"tensor<{r}x{c}x{el}>", f"tensor<{c}x{r}x{el}>"
+        m0 = "affine_map<(d0, d1) -> (d1, d0)>" if case["transposing"] else "affine_map<(d0, d1) -> (d0, d1)>"
+        if not case["transposing"]:
+            tout = tin
+        return f"""builtin.module {{
+  func.func @f() -> {tout} {{
+    %c = arith.constant dense<{nested_literal(case['data'], case['shape'])}> : {tin}
+    %e = tensor.empty() : {tout}
+    %t = linalg.generic {{indexing_maps = [{m0}, affine_map<(d0, d1) -> (d0, d1)>], iterator_types = ["parallel", "parallel"]}} ins(%c : {tin}) outs(%e : {tout}) {{
+    ^bb0(%x: {el}, %y: {el}):
+      linalg.yield %x : {el}
+    }} -> {tout}
+    func.return %t : {tout}
+  }}
+}}
+"""
+    if sub == "a2g":
+        fs = []
+        for fi in range(2 if case["twice"] else 1):
+            lines, rets, rtys = [], [], []
+            for i, a in enumerate(case["allocs"]):
+                ty = f"memref<{a['shape'][0]}xi32" + (f', "{a["space"]}">' if a["space"] else ">")
+                lines.append(f'    %a{i} = "memref.alloc"() <{{operandSegmentSizes = array<i32: 0, 0>}}> : () -> {ty}')
+                lines.append(f'    "test.op"(%a{i}) : ({ty}) -> ()')
+                if a["dealloc"]:
+                    lines.append(f'    "memref.dealloc"(%a{i}) : ({ty}) -> ()')
+                if a["ret"]:
+                    rets.append(f"%a{i}")
+                    rtys.append(ty)
+            sig = f" -> ({', '.join(rtys)})" if rtys else ""
+            ret = f"    func.return {', '.join(rets)} : {', '.join(rtys)}" if rets else "    func.return"
+            fs.append(f"  func.func @f{fi}(){sig} {{\n" + "\n".join(lines) + "\n" + ret + "\n  }")
+        return "builtin.module {\n" + "\n".join(fs) + "\n}\n"
+    # cms
+    tys = []
+    for sp in case["spaces"]:
+        lay = ", #tsl.tsl<[2, 4] -> (4, 1)>" if case["tsl"] else ""
+        tys.append(f"memref<8xi32{lay}" + (f', "{sp}">' if sp else ">"))
+    args = ", ".join(f"%a{i} : {t}" for i, t in enumerate(tys))
+    lines = [f'    "test.op"(%a{i}) : ({t}) -> ()' for i, t in enumerate(tys)]
+    if case["subview"] and not case["tsl"]:
+        sp = case["spaces"][0]
+        st = "memref<4xi32, strided<[1], offset: 4>" + (f', "{sp}">' if sp else ">")
+        lines.append(f"    %s = memref.subview %a0[4] [4] [1] : {tys[0]} to {st}")
+        lines.append(f'    "test.op"(%s) : ({st}) -> ()')
+    return f"builtin.module {{\n  func.func @f({args}) -> {tys[0]} {{\n" + "\n".join(lines) + f"\n    func.return %a0 : {tys[0]}\n  }}\n}}\n"
+
+
+def impl_misc(case):
+    src = misc_src(case)
+    try:
+        fparse(src).verify()
+    except Exception as e:
+        return {"invalid_input": f"{type(e).__name__}: {str(e)[:120]}"}
+    try:
+        return impl_misc_run(case, src)
+    except Exception as e:  # the input verified: a crash / invalid IR is the code's doing
+        return {"crash": f"{type(e).__name__}: {str(e)[:160]}"}
+
+
+def impl_misc_run(case, src):
+    from xdsl.dialects import arith, builtin, func, memref
+    from xdsl.pattern_rewriter import PatternRewriteWalker
+    from snaxc.dialects.snax import LayoutCast
+    sub = case["sub"]
+    if sub == "allocroot":
+        tbefore = {str(op.attributes["consumer"].value.data): str(op.operands[0].type)
+                   for op in fparse(src).walk() if op.name == "test.op"}
+        m = fpasses(src, "realize-memref-casts")
+        f = [o for o in m.walk() if isinstance(o, func.FuncOp)][0]
+        views, seen, problems, allocs = {}, {}, [], []
+        for op in m.walk():
+            if op.name == "test.op":
+                k = str(op.attributes["consumer"].value.data)
+                if str(op.operands[0].type) != tbefore[k]:
+                    problems.append(f"the operand of consumer {k} changed its type from {tbefore[k]} to {op.operands[0].type}")
+        for op in f.body.block.ops:
+            if isinstance(op, memref.AllocOp):
+                fn = type_addr_fn(op.memref.type)
+                idxs = list(itertools.product(*[range(n) for n in op.memref.type.get_shape()]))
+                views[op.memref] = ({}, [fn(i) for i in idxs])
+                allocs.append({"layout": str(op.memref.type.layout), "space": space_name(op.memref.type)})
+            elif isinstance(op, (memref.MemorySpaceCastOp, LayoutCast)):
+                if isinstance(op, LayoutCast) and op.dest.uses.get_length():
+                    problems.append("a layout cast with uses survived the pass")
+                views[op.results[0]] = views[op.operands[0]]
+            elif isinstance(op, memref.CopyOp):
+                sm, sa = views[op.source]
+                dm, da = views[op.destination]
+                for x, y in zip(sa, da):
+                    dm[y] = sm.get(x, "uninit")
+            elif op.name == "test.op":
+                k = op.attributes["consumer"].value.data
+                mem, ad = views[op.operands[0]]
+                seen[str(k)] = [mem.get(x, "uninit") for x in ad]
+                for i, x in enumerate(ad):  # an unknown op may write its operand
+                    mem[x] = [k, i]
+                if len(set(ad)) != len(ad):
+                    problems.append("two elements of an operand share an address")
+        return {"seen": seen, "problems": problems, "first_alloc": allocs[0] if allocs else None, "n_allocs": len(allocs)}
+    if sub == "rtc":
+        from snaxc.transforms.frontend.remove_transpose_constants import RemoveTransposeConstants
+        m = fparse(src)
+        PatternRewriteWalker(RemoveTransposeConstants()).rewrite_module(m)
+        m.verify()
+        consts = [op for op in m.walk() if isinstance(op, arith.ConstantOp)]
+        from xdsl.dialects import linalg
+        return {"generics": sum(1 for op in m.walk() if isinstance(op, linalg.GenericOp)),
+                "consts": [{"shape": list(op.result.type.get_shape()), "values": [int(v) for v in op.value.get_values()]} for op in consts]}
+    if sub == "a2g":
+        from snaxc.transforms.alloc_to_global import AllocToGlobalPass
+        m = fparse(src)
+        AllocToGlobalPass().apply(_ctx(), m)
+        m.verify()
+        globs = {op.sym_name.data: str(op.type) for op in m.walk() if isinstance(op, memref.GlobalOp)}
+        fs = []
+        for f in [o for o in m.walk() if isinstance(o, func.FuncOp)]:
+            ret = [o for o in f.walk() if isinstance(o, func.ReturnOp)][0]
+            fs.append({"returns": [[type(v.owner).__name__, str(v.type), v.owner.name_.root_reference.data if isinstance(v.owner, memref.GetGlobalOp) else None]
+                                   for v in ret.arguments],
+                       "allocs": sum(1 for o in f.walk() if isinstance(o, memref.AllocOp)),
+                       "deallocs": sum(1 for o in f.walk() if isinstance(o, memref.DeallocOp)),
+                       "sig": [str(t) for t in f.function_type.outputs]})
+        return {"globals": globs, "funcs": fs}
+    from snaxc.transforms.clear_memory_space import ClearMemorySpace
+    m = fparse(src)
+    ClearMemorySpace().apply(_ctx(), m)
+    m.verify()
+    f = [o for o in m.walk() if isinstance(o, func.FuncOp)][0]
+    tys = []
+    for op in m.walk():
+        for v in list(op.operands) + list(op.results):
+            if isinstance(v.type, builtin.MemRefType):
+                tys.append([space_name(v.type), type(v.type.layout).__name__, list(v.type.get_shape())])
+    sv = [str(op.result.type.layout) for op in m.walk() if isinstance(op, memref.SubviewOp)]
+    return {"sig_in": [[space_name(t), type(t.layout).__name__] for t in f.function_type.inputs],
+            "sig_out": [[space_name(t), type(t.layout).__name__] for t in f.function_type.outputs],
+            "blockargs": [[space_name(a.type), type(a.type.layout).__name__] for a in f.body.block.args],
+            "types": tys, "subview_layouts": sv}
+
+
+def model_misc(case, impl_out):
+    """harness-side prediction of the structure (no Lean function behind these patterns except transposeTuple)"""
+    sub = case["sub"]
+    if sub == "allocroot":
+        fires = case["extra"] is None
+        n = 1 + (1 if (case["ts2"] and (not fires or case["ts2"] != case["ts"])) else 0) + (0 if fires else 1)
+        lay = f"#tsl.tsl<{layout_text(case['ts'], 0)}>" if fires else "none"
+        return {"first_alloc": {"layout": lay, "space": "L1"}, "n_allocs": n}
+    return None
+
+
+def oracle_misc(case, out):
+    if "raised" in out or "invalid_input" in out:
+        return []
+    sub = case["sub"]
+    v = []
+    if "crash" in out:
+        return [{"what": f"{sub}: the pass crashed or produced invalid IR on a valid input ({out['crash']})", "finding": None}]
+    if sub == "allocroot":
+        idxs = list(itertools.product(*[range(n) for n in case["shape"]]))
+        for ts in (case["ts"], case["ts2"]):
+            if ts and len({addr_of(ts, i) for i in idxs}) != len(idxs):
+                return []  # a target layout that maps two elements to one address: outside the quantifier (C09)
+        v += [{"what": p, "finding": None} for p in out["problems"]]
+        n = len(out["seen"].get("0", []))
+        order = [k for k in ("0", "1", "2") if k in out["seen"]]
+        prev = None
+        for k in order:
+            want = ["uninit"] * n if prev is None else [[int(prev), i] for i in range(n)]
+            if out["seen"][k] != want:
+                v.append({"what": f"consumer {k} of a cast of an allocation does not read what consumer {prev} left in the buffer "
+                                  f"(element 0: {out['seen'][k][:1]} instead of {want[:1]})", "finding": None})
+            prev = k
+    elif sub == "rtc":
+        r, c = case["shape"]
+        if case["transposing"]:
+            want = [case["data"][j * c + i] for i in range(c) for j in range(r)]
+            ok = out["generics"] == 0 and len(out["consts"]) == 1 and out["consts"][0]["shape"] == [c, r] and out["consts"][0]["values"] == want
+            if not ok:
+                v.append({"what": f"RemoveTransposeConstants: the folded constant is not the transpose of the original ({out['consts']})", "finding": None})
+        elif out["generics"] != 1 or out["consts"][0]["values"] != case["data"]:
+            v.append({"what": "RemoveTransposeConstants changed a generic that does not transpose", "finding": None})
+    elif sub == "a2g":
+        names = set()
+        for f, fo in zip(range(len(out["funcs"])), out["funcs"]):
+            want_ret = [a for a in case["allocs"] if a["ret"]]
+            if len(fo["returns"]) != len(want_ret):
+                v.append({"what": "alloc-to-global changed the number of returned values", "finding": None})
+                continue
+            for a, (owner, ty, gname) in zip(want_ret, fo["returns"]):
+                if a["space"] is None:
+                    if owner != "GetGlobalOp" or out["globals"].get(gname) != ty or gname in names:
+                        v.append({"what": f"a returned allocation without memory space is not a distinct global of its type ({owner}, {gname})", "finding": None})
+                    names.add(gname)
+                elif owner != "AllocOp":
+                    v.append({"what": "an allocation with a memory space was turned into a global", "finding": None})
+            if fo["sig"] != [r[1] for r in fo["returns"]]:
+                v.append({"what": "returned types differ from the signature after alloc-to-global", "finding": None})
+    else:
+        if any(t[0] != "none" for t in out["types"]) or any(t[0] != "none" for t in out["sig_in"] + out["sig_out"] + out["blockargs"]):
+            v.append({"what": "a memref type still has a memory space after clear-memory-space", "finding": None})
+        if out["sig_in"] != out["blockargs"]:
+            v.append({"what": "clear-memory-space: entry block arguments differ from the signature", "finding": None})
+        if any(t[1] == "TiledStridedLayoutAttr" for t in out["types"]):
+            v.append({"what": "a tsl layout survives clear-memory-space", "finding": None})
+    return v[:3]
+
+
+
 # -- syntactic clauses of the partial theorem, evaluated on the generated program (harness side) ---------
 
 def classify(case):
@@ -1690,6 +1990,8 @@ class C12(Prop):
             yield gen_dyn(rng)
         for _ in range(250 if q else 4000):
             yield gen_subg(rng)
+        for _ in range(200 if q else 3000):
+            yield gen_misc(rng)
         for _ in range(60 if q else 1500):
             cols, rows = rng.randint(0, 6), rng.randint(0, 6)
             n = cols * rows + (rng.choice([-1, 1, 2]) if rng.random() < 0.1 else 0)
@@ -1712,6 +2014,8 @@ class C12(Prop):
             return impl_dyn(case)
         if k == "subg":
             return impl_subg(case)
+        if k == "misc":
+            return impl_misc(case)
         if k == "transpose":
             from snaxc.transforms.frontend.remove_transpose_constants import RemoveTransposeConstants
             return {"out": list(RemoveTransposeConstants().transpose_tuple(tuple(case["a"]), case["cols"], case["rows"]))}
@@ -1730,9 +2034,14 @@ class C12(Prop):
             return [{"fn": "c12.assignCasts", "args": {"fixed": FIX_C, "body": pipe_model_body(case)}}]
         if k == "dyn":
             return [{"fn": "c12.standIn", "args": {"shape": case["shape"], "rt": case["rt"]}}]
+        if k == "misc":
+            if case["sub"] == "rtc" and case["transposing"]:
+                return [{"fn": "c12.transposeTuple", "args": {"a": case["data"], "cols": case["shape"][0], "rows": case["shape"][1]}}]
+            return []
         if k == "subg":
             return [{"fn": "c12.subviewGlobal", "args": {"layout": {"ts": case["ts"], "offset": 0}, "shape": case["shape"],
-                                                         "data": case["data"], "refuse_offset": FIX_D}}]
+                                                         "data": case["data"], "refuse_offset": FIX_D,
+                                                         "offs": case["subs"][0]["off"], "fix_whole": FIX_F, "fix_aligned": FIX_E}}]
         if k in ("const", "glob"):
             return [{"fn": "c12.transformConstant", "args": {"data": case["data"], "refuse_offset": FIX_D,
                                                              "layout": {"ts": case["ts"], "offset": case["offset"]}}}]
@@ -1763,13 +2072,18 @@ class C12(Prop):
         k = case["kind"]
         if "invalid_input" in impl_out:
             return impl_out
+        if k == "misc":
+            if case["sub"] == "rtc" and case["transposing"]:
+                a = answers[0]
+                return {"consts": [{"shape": case["shape"][::-1], "values": a.get("ok")}], "generics": 0}
+            return model_misc(case, impl_out)
         if k == "subg":
             a = answers[0]
             if "err" in a:
                 return {"model_error": a["err"]}
             r = a["ok"]
             no = {"fires": False, "global_ts": None, "global_data": None}
-            if not subg_fires_pre(case):
+            if not subg_fires_pre(case) or r.get("guard") is False:
                 return no
             if case["data"] is None:
                 return {"fires": True, "global_ts": r["layout"], "global_data": "uninitialised"}
@@ -1843,6 +2157,13 @@ class C12(Prop):
             if isinstance(model_out, dict) and model_out.get("raised") == impl_out["raised"]:
                 return None
             return "the real code raised, the model did not (or another exception)"
+        if case["kind"] == "misc":
+            if model_out is None or "invalid_input" in impl_out or "crash" in impl_out:
+                return None
+            for key in model_out:
+                if canon_json(impl_out.get(key)) != canon_json(model_out[key]):
+                    return f"misc/{case['sub']}: {key} differs from the prediction"
+            return None
         if case["kind"] == "subg" and "fires" in impl_out:
             for key in ("fires", "global_ts", "global_data"):
                 if canon_json(impl_out[key]) != canon_json(model_out.get(key, "?")):
@@ -1898,6 +2219,8 @@ class C12(Prop):
             return oracle_dyn(case, out)
         if k == "subg":
             return oracle_subg(case, out)
+        if k == "misc":
+            return oracle_misc(case, out)
         if k == "transpose":
             a, cols, rows = case["a"], case["cols"], case["rows"]
             o = out["out"]
@@ -1950,6 +2273,8 @@ class C12(Prop):
             return f"glob:{case.get('root', 'init')}:{case.get('form')}:{'none' if out.get('out') is None else 'transformed'}"
         if k == "const":
             return f"{k}:{'none' if out.get('out') is None else 'transformed'}"
+        if k == "misc":
+            return f"misc:{case['sub']}"
         if k == "subg" and "fires" in out:
             return f"subg:{'fires' if out['fires'] else 'copy'}:{'init' if case['data'] is not None else 'uninit'}:{len(case['subs'])}sub"
         if k == "dyn":
